@@ -161,6 +161,11 @@ def _xh_sqlite_delete_records(cursor, size_to_keep):
     if not result:
         return
     max_tsb = result[0]
+    if max_tsb is None:
+        # Nothing is to be kept (LIMIT 0; or the table is empty).  Comparing
+        # with NULL matches no row, so a limit of 0 commands kept everything.
+        result = cursor.execute(f"DELETE FROM {XH_SQLITE_TABLE_NAME}")
+        return result.rowcount
     sql = f"DELETE FROM {XH_SQLITE_TABLE_NAME} WHERE tsb < ?"
     result = cursor.execute(sql, (max_tsb,))
     return result.rowcount
